@@ -138,6 +138,8 @@ fn atoms(d: &Delims, rich: bool) -> Vec<String> {
         format!("{}ab{}", d.ds, d.de),
         format!("{}/ab{}", d.ds, d.de),
         format!("{}/z{}", d.ds, d.de),
+        // a closing tag that carries attributes is a closing tag all the same
+        format!("{}/a x=\"1\" y{}", d.ds, d.de),
     ];
     if rich {
         // an opening tag with attributes (same name `a`) and a malformed tag
@@ -148,7 +150,7 @@ fn atoms(d: &Delims, rich: bool) -> Vec<String> {
 }
 
 pub fn run(r: &Report) {
-    r.set_rule("every sequence of <= N atoms over {text, open a, close a, open ab, close ab, close z} (one name a proper prefix of the other) (thorough adds: open a with attributes, malformed tag) rendered with delimiters < > and <!-- < > -->; real tokenize+parser::parse flattened to (open,close,parent) triples vs. explicit-stack model, plus in-order token coverage; non-trivial = distinct documents containing a crossing, a same-name nesting or a stray tag");
+    r.set_rule("every sequence of <= N atoms over {text, open a, close a, open ab, close ab, close z, close a with attributes} (one name a proper prefix of the other) (thorough adds: open a with attributes, malformed tag) rendered with delimiters < > and <!-- < > -->; real tokenize+parser::parse flattened to (open,close,parent) triples vs. explicit-stack model, plus in-order token coverage; non-trivial = distinct documents containing a crossing, a same-name nesting or a stray tag");
     let (n_main, n_rich) = match r.tier {
         Tier::Quick => (7, 0),
         Tier::Thorough => (10, 8),
